@@ -173,10 +173,14 @@ func Targets() []*Target {
 		{Matcher: "tls", Label: "alpn", Config: `{"alpn":["h2"]}`, Stream: true, Seeds: [][]byte{hello}},
 		{Matcher: "rdp", Config: `{}`, Stream: true, Seeds: [][]byte{rdpCookie, rdpCustom, rdpNeg}},
 		{Matcher: "rdp", Label: "cookie", Config: `{"cookie_hash":"user1"}`, Stream: true, Seeds: [][]byte{rdpCookie}},
+		{Matcher: "rdp", Label: "empty-placeholders", Config: `{"cookie_hash":"{env.VERIF_NOT_SET}","cookie_hash_regexp":"{env.VERIF_NOT_SET}"}`, Stream: true, Seeds: [][]byte{rdpCookie}},
 		{Matcher: "rdp", Label: "custom", Config: `{"custom_info_regexp":"^any"}`, Stream: true, Seeds: [][]byte{rdpCustom}},
 		{Matcher: "dns", Label: "tcp", Config: `{}`, Stream: true, Seeds: [][]byte{dnsTCP}},
 		{Matcher: "dns", Label: "tcp-allow", Config: `{"allow":[{"name":"example.com.","type":"A"}],"default_deny":true}`, Stream: true, Seeds: [][]byte{dnsTCP}},
 		{Matcher: "dns", Label: "udp", Config: `{}`, UDP: true, Seeds: [][]byte{dnsQ}},
+		// options given as placeholders that resolve to nothing (an environment variable that is not set)
+		{Matcher: "dns", Label: "tcp-empty-placeholders", Config: `{"allow":[{"name_regexp":"{env.VERIF_NOT_SET}","type_regexp":"{env.VERIF_NOT_SET}","class_regexp":"{env.VERIF_NOT_SET}"}]}`, Stream: true, Seeds: [][]byte{dnsTCP}},
+		{Matcher: "dns", Label: "udp-empty-placeholders", Config: `{"deny":[{"name_regexp":"{env.VERIF_NOT_SET}"}],"allow":[{"class":"{env.VERIF_NOT_SET}","type_regexp":"{env.VERIF_NOT_SET}"}]}`, UDP: true, Seeds: [][]byte{dnsQ}},
 		{Matcher: "dns", Label: "udp-deny", Config: `{"deny":[{"name_regexp":"^evil\\."}],"prefer_allow":true}`, UDP: true, Seeds: [][]byte{dnsQ}},
 		{Matcher: "openvpn", Label: "tcp", Config: `{}`, Stream: true, Seeds: [][]byte{ovpnTCP}},
 		{Matcher: "openvpn", Label: "tcp-plain", Config: `{"modes":["plain"]}`, Stream: true, Seeds: [][]byte{ovpnTCP}},
@@ -184,6 +188,7 @@ func Targets() []*Target {
 		{Matcher: "openvpn", Label: "udp-all-ignore", Config: `{"modes":["plain","auth","crypt","crypt2"],"ignore_crypto":true,"ignore_timestamp":true}`, UDP: true, Seeds: [][]byte{ovpn}},
 		{Matcher: "wireguard", Config: `{}`, UDP: true, Seeds: [][]byte{wgInit}},
 		{Matcher: "winbox", Config: `{}`, Stream: true, Seeds: [][]byte{WinboxAuth("admin", 0), WinboxAuth("some.user+r", 1), WinboxAuth(longName(230), 1)}},
+		{Matcher: "winbox", Label: "empty-placeholders", Config: `{"username":"{env.VERIF_NOT_SET}","username_regexp":"{env.VERIF_NOT_SET}"}`, Stream: true, Seeds: [][]byte{WinboxAuth("admin", 0)}},
 		{Matcher: "winbox", Label: "filtered", Config: `{"modes":["standard"],"username":"admin"}`, Stream: true, Seeds: [][]byte{WinboxAuth("admin", 1)}},
 		{Matcher: "quic", Config: `{}`, UDP: true, Slow: true, Seeds: nil},
 		{Matcher: "clock", Config: `{"after":"00:00:00","before":"23:59:59"}`, Stream: true, Seeds: [][]byte{[]byte("x")}},
